@@ -532,6 +532,61 @@ def case_endpoint(rng, big=False, forced=None) -> Case:
     return Case(ops=ops, tag="endpoint:" + ("relay" if relay else "direct"))
 
 
+U32 = 1 << 32
+# (endpoint_len, manifest_len, assignments_len) of an ANNOUNCE: every pair / triple whose 32-bit sum wraps, each single field huge
+WRAP_TRIPLES = [(0x80000000, 0x80000000, 0), (0x80000000, 0, 0x80000000), (0, 0x80000000, 0x80000000), (0xFFFFFFFF, 1, 0), (1, 0xFFFFFFFF, 0),
+                (0, 1, 0xFFFFFFFF), (0xFFFFFFF0, 0x20, 0), (0x20, 0, 0xFFFFFFF0), (0xFFFFFFFF, 0xFFFFFFFF, 2), (0x55555556, 0x55555555, 0x55555555),
+                (0xFFFFFFFF, 0xFFFFFFFF, 0xFFFFFFFF), (0x80000000, 0x7FFFFFFF, 1), (0xC0000000, 0x40000000, 0), (0x7FFFFFFF, 0x7FFFFFFF, 2),
+                (0x80000000, 0, 0), (0, 0x80000000, 0), (0, 0, 0x80000000), (0xFFFFFFFF, 0, 0), (0, 0xFFFFFFFF, 0), (0, 0, 0xFFFFFFFF),
+                (0x7FFFFFFF, 0, 0), (0x80000001, 0x7FFFFFFF, 0)]
+
+
+def wrap_announce(rng, version: int, triple=None, body=None) -> bytes:
+    """ANNOUNCE whose three 32-bit length fields are adversarial: a listed triple, or random huge values whose sum modulo 2^32 equals
+    the number of body bytes actually present (the frame then *looks* complete to a check done in 32 bits)"""
+    if body is None:
+        body = bytes(rng.randrange(256) for _ in range(rng.choice([0, 0, 1, 16, 32, 200])))
+    if triple is None:
+        e = rng.randrange(1 << 31, U32)
+        m = rng.randrange(1 << 30, U32)
+        a = (len(body) - e - m) % U32 if rng.random() < 0.7 else rng.randrange(U32)
+        if rng.random() < 0.3:
+            e, m, a = rng.sample([e, m, a], 3)
+        triple = (e, m, a)
+    e, m, a = triple
+    out = bytes([version, TAG["ann"]]) + be4(rng.choice([0, 600])) + be4(e) + be4(m) + be4(a) + id32("c1") + id32("p1") + body
+    if version >= 3 and rng.random() < 0.9:
+        out += bytes(8)                    # the PoW nonce the decoder expects from version 3
+    return out
+
+
+def case_lenwrap(rng, big=False) -> Case:
+    """wrapping sums of length fields through every decode entry point: the pre-handshake frame on the transport accept thread
+    (handle_pending_handshake decodes whatever type arrives), signed and unsigned frames on an established session"""
+    ops, keys = _peer_ops(rng, ["p1"])
+    k = keys["p1"]
+    triples = list(WRAP_TRIPLES)
+    rng.shuffle(triples)
+    n = len(triples) if big else 8
+    for t in triples[:n] + [None] * (6 if big else 3):
+        v = rng.choice([1, 2, 3, 4])
+        body = None if rng.random() < 0.5 else b""       # short bodies / only the fixed header
+        msg = wrap_announce(rng, v, t, body)
+        where = rng.random()
+        if where < 0.45:
+            ops.append(f"hs {hx(id32('q7') + be4(len(msg)) + msg)}")
+        elif where < 0.9:
+            ops.append(f"frame p1 {hx(sign(k, msg))}")
+        else:
+            ops.append(f"frame p1 {hx(msg)}")
+    # the other message with a length field, at its edges
+    for dl in rng.sample([0x80000000, 0xFFFFFFFF, 0xFFFFFFD8, 0xFFFFFFF8, 0x7FFFFFFF], 2):
+        msg = bytes([rng.choice([1, 4]), TAG["chk"]]) + be4(600) + be4(dl) + id32("c1") + bytes(rng.choice([0, 8, 40]))
+        ops.append(rng.choice([f"hs {hx(id32('q8') + be4(len(msg)) + msg)}", f"frame p1 {hx(sign(k, msg))}"]))
+    ops.append(ctl(["COMMAND:PING"]))
+    return Case(ops=ops, tag="length-wrap")
+
+
 KNOWN = ["announce-chunk-dup", "fetch-dup", "fetch-empty-out"]
 
 
@@ -544,8 +599,15 @@ def generate(ctx, budget):
     cases.append(Case(ops=["rt stall"], tag="real-threads:stall"))
     # the witness of the seeded change: a 30-digit port, then the retry from tick
     cases.append(case_endpoint(random.Random("C35-endpoint-overflow"), forced=b"127.0.0.1:123456789012345678901234567890"))
+    # the witness of the round-3 seeded change: endpoint_len = manifest_len = 2^31, only the fixed header, before any handshake
+    w3 = random.Random("C35-length-wrap")
+    cases.append(Case(ops=[f"hs {hx(id32('q7') + be4(90) + wrap_announce(w3, 4, (0x80000000, 0x80000000, 0), b'')[:90])}",
+                           ctl(["COMMAND:PING"])], tag="length-wrap:witness"))
     for i in range(budget):
         r = i % 10
+        if i % 10 == 7:
+            cases.append(case_lenwrap(rng, big and i % 3 == 0))
+            continue
         if i % 5 == 4:
             cases.append(case_endpoint(rng, big and i % 3 == 0))
             continue
